@@ -47,6 +47,24 @@ class SPath(SOpaque):
                 self.trace.append(("write", self.parts))
                 return 0
             return SFunc("model", write)
+        # read-only queries of the file system: whatever the code asks, the answer is unconstrained (an existing project
+        # directory may be empty, hold dot files, user files ...), except that it is consistent with `project_dir_exists`
+        if name in ("exists", "is_dir", "is_file"):
+            def q(I2, a, k):
+                b = z3.Bool(f"{name}[{'/'.join(map(str, self.parts))}]")
+                if self.parts == ("project_dir",):
+                    I2.fact(z3.Implies(b, self.world["project_dir_exists"]))
+                return SBool(b)
+            return SFunc("model", q)
+        if name == "iterdir":
+            def it(I2, a, k):
+                n = I2.choose(3)
+                return SList([SPath(self.parts + (SStr(z3.Const(f"entry{j}_name", z3.StringSort())),), self.trace, self.world)
+                              for j in range(n)])
+            return SFunc("model", it)
+        if name == "name":
+            last = self.parts[-1]
+            return last if isinstance(last, (str, SStr)) else SStr(z3.Const("path_name", z3.StringSort()))
         raise Unsupported(f"Path.{name}")
 
 
